@@ -744,6 +744,18 @@ func (w *world) runFree(sc *freeScen, c corr) *result {
 		if e != nil {
 			x.note("revise: %v", e)
 		}
+		// a host that countersigns whatever the renter signed: if the renter's signature is
+		// not over the revision for the indices it sent, try other deletion counts
+		if !old.RenterPublicKey.VerifyHash(w.cs.ContractSigHash(local), rs.RenterSignature) {
+			for k := 0; k <= len(req.Indices)+16; k++ {
+				if alt, _, e := proto4.ReviseForFreeSectors(old, req.Prices, resp.NewMerkleRoot, k); e == nil &&
+					old.RenterPublicKey.VerifyHash(w.cs.ContractSigHash(alt), rs.RenterSignature) {
+					x.note("the renter signed a revision for %d deletions although it sent %d indices; the host countersigns that one", k, len(req.Indices))
+					local = alt
+					break
+				}
+			}
+		}
 		sig := proto4.RPCFreeSectorsThirdResponse{HostSignature: w.fSigner(sc.fgn).SignHash(w.cs.ContractSigHash(local))}
 		st.sig = &sigSt{w: w, sig: &sig.HostSignature, local: local, prev: old, other: sc.other.Revision, renterSig: rs.RenterSignature}
 		c.applyTyped(3, st)
